@@ -5,6 +5,7 @@ import (
 	"encoding/xml"
 	"fmt"
 	"io"
+	"reflect"
 	"strings"
 )
 
@@ -177,5 +178,124 @@ func (c *Ctx) Retain(api string, b []byte, cas func() interface{}) {
 	retainRing = append(retainRing, retained{api, b, append([]byte(nil), b...), cc})
 	if len(retainRing) > 64 {
 		retainRing = retainRing[1:]
+	}
+}
+
+// ---- retained non-byte results (slices of values, paths, leaf nodes) ----
+
+type retainedVal struct {
+	api  string
+	live reflect.Value // the slice handed to the caller
+	copy reflect.Value // element-wise snapshot taken at return time
+	cas  interface{}
+}
+
+var retainValRing []retainedVal
+
+// shallowSame: scalars equal, containers identical (same storage and length). A result shares its
+// container members with the receiver by design; what must not happen is that the slots of a slice
+// already handed to the caller are rewritten by a later call.
+func shallowSame(a, b reflect.Value) bool {
+	if a.IsValid() != b.IsValid() {
+		return false
+	}
+	if !a.IsValid() {
+		return true
+	}
+	if a.Kind() == reflect.Interface {
+		if a.IsNil() || b.IsNil() {
+			return a.IsNil() == b.IsNil()
+		}
+		a, b = a.Elem(), b.Elem()
+	}
+	if a.Type() != b.Type() {
+		return false
+	}
+	switch a.Kind() {
+	case reflect.Map, reflect.Slice:
+		return a.Pointer() == b.Pointer() && a.Len() == b.Len()
+	case reflect.Struct:
+		for i := 0; i < a.NumField(); i++ {
+			if !shallowSame(a.Field(i), b.Field(i)) {
+				return false
+			}
+		}
+		return true
+	case reflect.Float64, reflect.Float32:
+		x, y := a.Float(), b.Float()
+		return x == y || (x != x && y != y)
+	case reflect.Ptr:
+		return a.Pointer() == b.Pointer()
+	}
+	return a.Interface() == b.Interface()
+}
+
+// RetainVal records a returned slice (of any element type) and verifies that all earlier ones still
+// hold what they held when they were returned.
+func (c *Ctx) RetainVal(api string, v interface{}, cas func() interface{}) {
+	for _, r := range retainValRing {
+		same := r.live.Len() == r.copy.Len()
+		for i := 0; same && i < r.copy.Len(); i++ {
+			same = shallowSame(r.live.Index(i), r.copy.Index(i))
+		}
+		if !same {
+			var cur interface{}
+			if cas != nil {
+				cur = cas()
+			}
+			var first interface{}
+			if f, ok := r.cas.(func() interface{}); ok && f != nil {
+				first = f()
+			}
+			c.Violate(r.api, "result-overwritten-by-later-call", "retained-result", map[string]interface{}{"sequence": []interface{}{first, cur}}, nil,
+				fmt.Sprintf("the result returned earlier by %s was %s and is now %s after a later call to %s", r.api, short(dump(r.copy.Interface()), 300), short(dump(r.live.Interface()), 300), api))
+			retainValRing = nil
+			break
+		}
+	}
+	rv := reflect.ValueOf(v)
+	if !rv.IsValid() || rv.Kind() != reflect.Slice || rv.Len() == 0 {
+		return
+	}
+	cp := reflect.MakeSlice(rv.Type(), rv.Len(), rv.Len())
+	reflect.Copy(cp, rv)
+	retainValRing = append(retainValRing, retainedVal{api, rv, cp, cas}) // the case is rendered only if needed
+	if len(retainValRing) > 16 {
+		retainValRing = retainValRing[1:]
+	}
+}
+
+// ---- retained trees (Maps updated in place and kept by the caller) ----
+
+type retainedTree struct {
+	api  string
+	live interface{}
+	snap string
+	cas  func() interface{}
+}
+
+var retainTreeRing []retainedTree
+
+// RetainTree records a tree the caller keeps (a Map after an in-place update) and verifies that all
+// earlier ones still hold, deeply, what they held when the call returned.
+func (c *Ctx) RetainTree(api string, v interface{}, cas func() interface{}) {
+	for _, r := range retainTreeRing {
+		if now := dump(r.live); now != r.snap {
+			var first, cur interface{}
+			if r.cas != nil {
+				first = r.cas()
+			}
+			if cas != nil {
+				cur = cas()
+			}
+			c.Violate(r.api, "result-overwritten-by-later-call", "retained-result", map[string]interface{}{"sequence": []interface{}{first, cur}}, nil,
+				fmt.Sprintf("the Map left by an earlier %s was %s and is now %s after a later call to %s", r.api, short(r.snap, 300), short(now, 300), api))
+			retainTreeRing = nil
+			break
+		}
+	}
+	retainTreeRing = append(retainTreeRing, retainedTree{api, v, dump(v), cas})
+	if len(retainTreeRing) > 4 {
+		retainTreeRing = retainTreeRing[1:]
 	}
 }
